@@ -1,2 +1,13 @@
-#!/bin/sh
-exit 0
+#!/bin/bash
+# Offline setup: build the instrumenter, warm the build cache with one overlay
+# build of the harness, and run the repository's own tests on the instrumented
+# build (transparency check: the rewrites preserve behaviour).
+set -u
+cd "$(dirname "$0")"
+export GOFLAGS=-mod=mod GOPROXY=off GOSUMDB=off GOTOOLCHAIN=local
+export GOCACHE=$(pwd)/.cache/go-build
+mkdir -p bin .cache
+go build -o bin/vinstr ./cmd/vinstr || exit 2
+./run.sh list >/dev/null || exit 2
+./run.sh transparency || { echo "setup: repository tests fail on the instrumented build" >&2; exit 2; }
+echo "setup ok"
